@@ -63,6 +63,10 @@ def callee(n):
         return None
     if f.get("k") == "MemberExpr":
         return f.get("n")
+    if f.get("k") in ("UnresolvedLookupExpr", "UnresolvedMemberExpr"):
+        return f.get("n") or f.get("member")
+    if f.get("k") == "CXXDependentScopeMemberExpr":
+        return f.get("member")
     return None
 
 
@@ -125,6 +129,12 @@ def text(n, keep_casts=False) -> str:
         return base + ("->" if n.get("arrow") else ".") + str(n.get("n"))
     if k == "CXXThisExpr":
         return "this"
+    if k == "UnresolvedLookupExpr" or k == "UnresolvedMemberExpr":
+        return n.get("n") or n.get("member") or f"<{k}>"
+    if k == "CXXDependentScopeMemberExpr":
+        c = kids(n)
+        base = text(c[0], keep_casts) if c else "this"
+        return base + ("->" if n.get("arrow") else ".") + str(n.get("member"))
     if k == "ArraySubscriptExpr":
         c = kids(n)
         return f"{text(c[0], keep_casts)}[{text(c[1], keep_casts)}]"
